@@ -740,10 +740,10 @@ impl ParserListener for Screen {
 
         let line = self
             .buffer
-            .get_mut(&self.cursor.y)
-            .expect("can not retrieve line");
-        for x in (self.cursor.x..self.columns + 1).rev() {
-            if x + count <= self.columns {
+            .entry(self.cursor.y)
+            .or_insert_with(HashMap::new);
+        for x in (self.cursor.x..self.columns).rev() {
+            if x + count < self.columns {
                 let x_val = line.get(&x);
                 match x_val {
                     Some(val) => {
